@@ -5,7 +5,7 @@ from __future__ import annotations
 import ast
 from typing import Dict, List
 
-from ..astutil import ancestors, calls_in, dotted, enclosing_withs, name_stores, unparse, walk_local, walk_stmts
+from ..astutil import ancestors, calls_in, dotted, enclosing_withs, name_stores, own_exprs, unparse, walk_local, walk_stmts
 from ..cfg import no_exc
 from ..report import Registry, chain, sub
 from ._helpers_rules_d import attr_store_nodes, call_nodes, callee_is, ends_with_name, guard_atom_set, qualname
@@ -26,7 +26,10 @@ R = Registry(
         "close() re-links the session before announcing the end; re-keying a state is ordered discard-under-the-"
         "current-key < key store < re-registration; the flushes a transaction performs itself (before a savepoint "
         "snapshot, before commit) do not depend on Session configuration such as autoflush and precede the savepoint's "
-        "fresh bookkeeping; ending a transaction while inner ones are open consumes the inner snapshots."
+        "fresh bookkeeping; ending a transaction while inner ones are open consumes the inner snapshots; a state-guarded "
+        "transition inside a declared method (rollback's connection-rollback + restore block, commit's prepare) is skipped "
+        "only from the state it establishes, for every declared prerequisite state; the partial expire of a savepoint "
+        "rollback reaches the states of every bookkeeping map that stay in the session (_dirty, _deleted, _key_switches)."
     ),
     not_decided="attribute values versus the database after each step; two-phase behaviour of the DBAPI.",
 )
@@ -774,7 +777,6 @@ def r9(ctx):
             for n in g.nodes:
                 if n.stmt is None or n.kind in ("with_exit", "handler", "join") or not isinstance(n.stmt, ast.stmt):
                     continue
-                from ..astutil import own_exprs
                 for c in [c for e in own_exprs(n.stmt) for c in calls_in(e)]:
                     if not (isinstance(c.func, ast.Attribute) and dotted(c.func.value) == "self" and c.func.attr in cls.methods):
                         continue
@@ -836,10 +838,46 @@ def r9(ctx):
 # ---------------------------------------------------------------------- C33-R10: the partial (savepoint) expire pass
 def _registers_as_altered(ctx, fld):
     """Is every state a function records in `<tx>.<fld>[state]` also recorded in `_dirty` (handed to Session._register_altered,
-    directly or as a member of the collection the recording loop iterates, reachable after the store)?  -> (bool, [function keys])"""
+    directly or as a member of the collection the recording loop iterates, on every normal path after the store)?  A private helper
+    that records the state handed to it is judged at its call sites.  -> (bool, [function keys])"""
+    from ._helpers_rob_B2 import references
     m = ctx.index.module(SESSION)
     pm = m.parents()
     writers, ok = [], True
+
+    def site_ok(fn_node, stmt, key_text, depth):
+        """`stmt` (in fn_node) records the state named key_text: it is registered as altered on every normal way out."""
+        g = ctx.cfg(fn_node)
+        names = {key_text}
+        for a in ancestors(pm, stmt):
+            if a is fn_node:
+                break
+            if isinstance(a, ast.For) and unparse(a.target) == key_text:
+                names.add(unparse(a.iter))
+        reg = call_nodes(g, lambda c: isinstance(c.func, ast.Attribute) and c.func.attr == "_register_altered" and c.args and unparse(c.args[0]) in names)
+        if reg and all(g.must_pass([n], [g.exit], reg, edge_ok=no_exc) is None for n in g.nodes_for(stmt)):
+            return True
+        # the state is a parameter of a private helper: the callers register it
+        if depth > 0 and key_text in param_names(fn_node) and fn_node.name.startswith("_"):
+            calls, other = references(m.tree, fn_node.name, pm)
+            if not calls or other:
+                return False
+            for caller, c in calls:
+                if caller is None:
+                    return False
+                bnd = bind_args(fn_node, c, is_bound_method(fn_node, pm))
+                arg = (bnd or {}).get(key_text)
+                if not isinstance(arg, ast.Name):
+                    return False
+                st = c
+                while st is not None and not isinstance(st, ast.stmt):
+                    st = pm.get(st)
+                if st is None or not site_ok(caller, st, arg.id, depth - 1):
+                    return False
+                ctx.functions_analysed.add(f"{SESSION}::{qualname(pm, caller) + '.' if qualname(pm, caller) else ''}{caller.name}")
+            return True
+        return False
+
     for f in ctx.index.all_functions(m):
         if f.type_only or (f.cls is not None and f.cls.name == "SessionTransaction"):
             continue
@@ -848,18 +886,9 @@ def _registers_as_altered(ctx, fld):
         if not stores:
             continue
         writers.append(f.key)
-        g = ctx.cfg(f)
         for st in stores:
             k = next(t.slice for t in st.targets if isinstance(t, ast.Subscript) and is_map(t.value) == fld)
-            names = {unparse(k)}
-            for a in ancestors(pm, st):
-                if a is f.node:
-                    break
-                if isinstance(a, ast.For) and unparse(a.target) == unparse(k):
-                    names.add(unparse(a.iter))
-            reg = call_nodes(g, lambda c: isinstance(c.func, ast.Attribute) and c.func.attr == "_register_altered" and c.args and unparse(c.args[0]) in names)
-            # on every normal path from the store to the exit the state is registered as altered
-            if not reg or any(g.must_pass([n], [g.exit], reg, edge_ok=no_exc) is not None for n in g.nodes_for(st)):
+            if not site_ok(f.node, st, unparse(k), 2):
                 ok = False
     return ok and bool(writers), writers
 
@@ -1223,3 +1252,7 @@ R.mutant("benign-partial-expire-map-alias-and-nested-ifs", SESSION,
          sub("        for s in self.session.identity_map.all_states():\n" + _PE_OLD,
              "        altered = self._dirty\n        for s in self.session.identity_map.all_states():\n            if dirty_only:\n                if not (s.modified or s in altered):\n                    continue\n"
              "            s._expire(s.dict, self.session.identity_map._modified)\n"), None)
+R.mutant("key-switch-in-helper-caller-no-longer-registers-altered", SESSION,
+         chain(_switch_helper(_SW_CALL, "        self.identity_map.safe_discard(state)\n" + _SW_RECORD + "        state.key = instance_key\n"),
+               sub("            ((state, state.dict) for state in states), self.identity_map\n        )\n\n        self._register_altered(states)\n",
+                   "            ((state, state.dict) for state in states), self.identity_map\n        )\n")), "C33-R10")
